@@ -184,6 +184,14 @@ func (eval Evaluator) evaluateNew(ct *rlwe.Ciphertext, log2min, log2max float64,
 
 	if fulldomain {
 
+		// Without a normalization factor nothing above ensures that
+		// cInv has a level left for the multiplication with the sign.
+		if cInv.Level() < btp.MinimumInputLevel()+levelsPerRescaling {
+			if cInv, err = btp.Bootstrap(cInv); err != nil {
+				return nil, fmt.Errorf("fulldomain: bootstrap(cInv): %w", err)
+			}
+		}
+
 		// Multiplies back with the encrypted sign
 		if err = eval.MulRelin(cInv, sign, cInv); err != nil {
 			return nil, fmt.Errorf("fulldomain: mul(cInv):  %w", err)
